@@ -1056,5 +1056,13 @@ func (r *Report) Finish(env *Env) int {
 	os.WriteFile(filepath.Join(OutDir, "evidence", r.Property+".json"), b, 0o644)
 	fmt.Printf("%s %s: skeletons=%d paths=%d (inconclusive %d, beyond-bound %d) queries=%d solver=%.1fs cross-checked=%d violations=%d known=%d wall=%.1fs\n",
 		r.Property, r.Tier, r.Cases, r.Paths.Paths, r.Paths.Inconclusive, r.Paths.BeyondBound, r.solverQ, r.solverTime.Seconds(), r.CrossOK, len(r.Violations), len(r.KnownHit), wall)
+	if r.Paths.Inconclusive > 0 {
+		why := ""
+		for m := range r.Paths.InconMsgs {
+			why = m
+			break
+		}
+		fmt.Printf("NOTE: %d of %d paths were not decided by the encoder (each was completed by one native run only; they are outside the claim): %s\n", r.Paths.Inconclusive, r.Paths.Paths, why)
+	}
 	return exit
 }
